@@ -28,7 +28,7 @@ type Unit struct {
 	Tests           bool              `json:"tests"`
 	Native          []string          `json:"native_files"`
 	ParallelEntries int               `json:"parallel_entries"`
-	SQLSchema bool `json:"sql_schema"`
+	SQLSchema       bool              `json:"sql_schema"`
 }
 
 type checkOpts struct {
